@@ -5,6 +5,7 @@ package main
 //         mem.NewFileHandle / mem.NewReadOnlyFileHandle (c = closed before the first op)
 //   case <id> mem                                        the same through MemMapFs.Create/Open/OpenFile
 import (
+	"strconv"
 	"fmt"
 	"strings"
 
@@ -270,7 +271,14 @@ func runC02(c *Ctx) {
 		}
 		nops := r.Range(1, 25)
 		for j := 0; j < nops; j++ {
-			items = append(items, genHandleOp(r, r.Intn(nh+1), size+4))
+			op := genHandleOp(r, r.Intn(nh+1), size+4)
+			if t := strings.Split(op, " "); len(t) == 5 && t[2] == "HTruncate" {
+				// a truncation is framed by the size before and the bytes after: what a growing
+				// truncation adds is zeros, whatever the file held earlier (judged below)
+				items = append(items, ". - HStat "+t[3], op, ". - HReadAt "+t[3]+" 64 0")
+				continue
+			}
+			items = append(items, op)
 		}
 		items = append(items, ". - Stat 2f66", "snap .")
 		// final sweep: every handle that is still usable shows the same bytes and the same size
@@ -281,6 +289,25 @@ func runC02(c *Ctx) {
 		id := fmt.Sprintf("m%d", i)
 		outs := RunCase(c, id, "mem", items)
 		if len(outs) == len(items) {
+			for k := 1; k+1 < first; k++ {
+				t := strings.Split(items[k], " ")
+				if len(t) != 5 || t[2] != "HTruncate" || outs[k] != "ok" || !strings.HasPrefix(outs[k-1], "info:") || !strings.HasPrefix(outs[k+1], "data:") {
+					continue
+				}
+				before, _ := strconv.Atoi(strings.Split(outs[k-1][5:], "|")[2])
+				to, _ := strconv.Atoi(t[4])
+				d := strings.Split(outs[k+1], ":")[1]
+				if d == "-" {
+					d = ""
+				}
+				c.Count("oracle.truncate-framed")
+				for q := before; q < to && 2*q+2 <= len(d); q++ {
+					if d[2*q:2*q+2] != "00" {
+						c.Oracle("FAIL %s truncate:grown-part-not-zero step %d (%s): the file had %d bytes, after the truncation it reads %s: byte %d is not zero", id, k, items[k], before, d, q)
+						break
+					}
+				}
+			}
 			size, data := "", ""
 			for k := first; k < len(outs); k++ {
 				o := outs[k]
